@@ -112,11 +112,14 @@ pub fn gen_req(r: &mut Rng, nonce: u64, versioned: bool) -> ErrReq {
             h2: None,
             plan: ReqPlan { nonce, head_method: false, expect: Expect::Ok { op: "ok".into() } },
         },
-        8 => ErrReq {
-            bytes: h1("GET", "/hdr", nonce, steps, step_ms, None, versioned),
-            h2: None,
-            plan: ReqPlan { nonce, head_method: false, expect: Expect::Ok { op: "hdr".into() } },
-        },
+        8 => {
+            let (t, op) = if r.chance(1, 2) { ("/hdr", "hdr") } else { ("/ownid", "ownid") };
+            ErrReq {
+                bytes: h1("GET", t, nonce, steps, step_ms, None, versioned),
+                h2: None,
+                plan: ReqPlan { nonce, head_method: false, expect: Expect::Ok { op: op.into() } },
+            }
+        }
         9 => {
             // framework-made errors
             let (m, t, lo, hi): (&str, &str, u16, u16) = *r.pick(&[
@@ -251,6 +254,7 @@ impl Scenario for C13 {
             "repeated_header_checked",
             "request_id_vs_handler_checked",
             "boundary_399_400_599_600",
+            "handler_supplied_request_id_checked",
         ]
     }
 
@@ -498,6 +502,9 @@ pub fn check_c13(plan: &Plan, out: &Outcome, probes: &mut Vec<&'static str>) -> 
                     closed = closed || resp.status >= 400;
                 }
                 Expect::Ok { op } => {
+                    if op == "ownid" {
+                        probes.push("handler_supplied_request_id_checked");
+                    }
                     if resp.status != 200 {
                         v.push(Violation { rule: "c13.ok_status".into(), detail: format!("nonce {} {op}: status {}", rq.nonce, resp.status) });
                     }
